@@ -19,6 +19,7 @@ type Stage struct {
 	Ident   bool   `json:"ident,omitempty"`   // value-preserving variant (C08)
 	TypeErr int    `json:"typeerr,omitempty"` // >0: elements with x%TypeErr==1 raise a language-level type error (member access on an int)
 	Sparse  int    `json:"sparse,omitempty"`  // C08 accept: only elements <= Sparse pass (nothing after that)
+	Deep    int    `json:"deep,omitempty"`    // >0: the closure recurses this many levels (a value stack that has to grow) before it answers
 }
 
 type Pipe struct {
@@ -109,6 +110,10 @@ func wrap(st Stage, s int, v string) string {
 	}
 	if st.Fail {
 		e = "fail(" + id + "," + e + ")"
+	}
+	if st.Deep > 0 {
+		d := strconv.Itoa(st.Deep)
+		e = "(dd(" + d + ")-" + d + "+" + e + ")"
 	}
 	if st.TypeErr > 0 {
 		// only behind the first elements, so that a parallel stage has already switched to its workers
@@ -323,11 +328,21 @@ func (p *Pipe) render() (string, error) {
 		return "", fmt.Errorf("too many stages")
 	}
 	lets := ""
+	deep := p.Term.Deep > 0
+	for _, st := range p.Stages {
+		deep = deep || st.Deep > 0
+	}
+	for _, st := range p.MU {
+		deep = deep || st.Deep > 0
+	}
+	if deep {
+		lets = "func dd(n) if n=0 then 0 else 1+dd(n-1); "
+	}
 	shared := p.Shared > 0
 	for i, st := range p.Stages {
 		if shared && i == p.Split {
 			l, e := p.sharedBody()
-			lets, cur, shared = "let s="+cur+"; "+l, e, false
+			lets, cur, shared = lets+"let s="+cur+"; "+l, e, false
 		}
 		var ok bool
 		cur, ok = renderStage(cur, st, i, p)
@@ -337,7 +352,7 @@ func (p *Pipe) render() (string, error) {
 	}
 	if shared {
 		l, e := p.sharedBody()
-		lets, cur = "let s="+cur+"; "+l, e
+		lets, cur = lets+"let s="+cur+"; "+l, e
 	}
 	ts := len(p.Stages)
 	if p.Reuse != "" {
@@ -357,7 +372,7 @@ func (p *Pipe) render() (string, error) {
 		for j, c := range p.MU {
 			var body string
 			var ok bool
-			if c.Op == "noread" || c.Op == "notfunc" || c.Op == "arity2" || c.Op == "twice" || c.Op == "twice-short" || c.Op == "lazyret" {
+			if c.Op == "noread" || c.Op == "notfunc" || c.Op == "arity2" || c.Op == "twice" || c.Op == "twice-short" || c.Op == "lazyret" || c.Op == "unopened" {
 				body, ok = "7", true
 			} else if c.Op == "topsize" {
 				body, ok = renderTerm("l", c, ts+1+j, p)
@@ -376,6 +391,9 @@ func (p *Pipe) render() (string, error) {
 				continue
 			case "lazyret": // the consumer hands back a lazy list built on its copy: consumed after multiUse returned
 				parts = append(parts, "c"+strconv.Itoa(j)+": l->l.map(x->x+1)"+[]string{"", ".top(2)", ".accept(x->x%2=0)"}[c.N%3])
+				continue
+			case "unopened": // the consumer hands its list to a stage that asks for it and never iterates it
+				parts = append(parts, "c"+strconv.Itoa(j)+": l->"+[]string{"([0]+l).first()", "numbers(0).cross(l,(p,q)->q).size()", "([0,1,2]+l).top(2).size()", "[].merge(l,(p,q)->p<q).top(0).size()"}[c.N%4])
 				continue
 			case "notfunc":
 				parts = append(parts, "c"+strconv.Itoa(j)+": 3")
@@ -449,7 +467,7 @@ func (p *Pipe) script(host HostTables) (*Script, error) {
 // closure-calling stages (those whose callback can carry cost/probe/fail wrappers)
 func hasClosure(op string) bool {
 	switch op {
-	case "top", "skip", "plus", "sum", "size", "string", "first", "last", "single", "lazy", "lazyk", "contains", "topsize", "noread", "notfunc", "arity2", "twice", "twice-short", "lazyret", "multiUse":
+	case "top", "skip", "plus", "sum", "size", "string", "first", "last", "single", "lazy", "lazyk", "contains", "topsize", "noread", "notfunc", "arity2", "twice", "twice-short", "lazyret", "unopened", "multiUse":
 		return false
 	}
 	return true
